@@ -152,7 +152,7 @@ macro_rules! fixed_table_harness {
                     assert!(m.as_view().left_cumulative_and_probability(i) == Some((c, pr)), "C05: view differs from its owner");
                 }
             }
-            if LEN + INFER as usize >= 2 { cover!(valid, "a valid table exists"); }
+            cover!((LEN + (INFER as usize)) < 2 || valid, "a valid table exists (or the table is too short to be valid)");
         }
     };
 }
@@ -516,4 +516,17 @@ pub fn non_contiguous_fast_counts() {
         let (_s, c, p) = d.quantile_function(q);
         assert!(c <= q && (q as u32) < c as u32 + p.get() as u32 && (p.get() as u32) < 256, "C03: non-contiguous model entry is not a proper sub-interval");
     }
+}
+
+/// C19: the lazy float constructor refuses NaN and negative entries as well (it returns a model
+/// whose probabilities are computed later: accepting such a table yields wrapped probabilities).
+#[cfg_attr(kani, kani::proof)]
+#[cfg_attr(kani, kani::unwind(6))]
+pub fn lazy_f32_rejects_bad_entries() {
+    const P: usize = 8;
+    let p: [f32; 3] = [any(), any(), any()];
+    let norm: Option<f32> = if any::<bool>() { Some(any()) } else { None };
+    let bad = !(p[0] >= 0.0) || !(p[1] >= 0.0) || !(p[2] >= 0.0);
+    assume(bad);
+    assert!(LazyContiguousCategoricalEntropyModel::<u8, f32, &[f32], P>::from_floating_point_probabilities_fast(&p[..], norm).is_err(), "C19: lazy float table with a NaN or negative entry accepted");
 }
